@@ -355,7 +355,7 @@ def record(job):
                                   'detail': b.stderr[-600:], 'name': name})
                     continue
                 try:
-                    r = subprocess.run([str(exe)], capture_output=True, text=True, timeout=20)
+                    r = subprocess.run([str(exe)], capture_output=True, text=True, timeout=90)
                     lines = r.stdout.splitlines()
                     rc = r.returncode
                 except subprocess.TimeoutExpired:
